@@ -25,6 +25,7 @@ class Unit:
         self.decls = {x["id"]: x for x in d["decls"]}
         self.records = d["records"]
         self.patterns = d["patterns"]
+        self.enums = d.get("enums", [])
         self.stats = d["stats"]
         self.functions = d["functions"]
         self.lambda_by_class = {}
